@@ -129,6 +129,8 @@ struct ParFrameBuf {
     buffers: Vec<Mutex<NumberedFrameBuf>>,
     encode_queue: (Sender<Option<usize>>, Receiver<Option<usize>>),
     refill_queue: (Sender<usize>, Receiver<usize>),
+    /// The encoding failure with the smallest frame number reported by workers.
+    failure: Mutex<Option<(usize, VerifyError)>>,
 }
 
 impl ParFrameBuf {
@@ -151,7 +153,36 @@ impl ParFrameBuf {
             buffers,
             encode_queue: crossbeam_channel::bounded(replicas + 1),
             refill_queue: (refill_sender, refill_receiver),
+            failure: Mutex::new(None),
         })
+    }
+
+    /// Records that encoding of the frame `frame_number` failed with `err`.
+    ///
+    /// Only the failure of the earliest frame is kept so the reported error
+    /// is the one the single-threaded encoder would have returned.
+    pub fn report_failure(&self, frame_number: usize, err: VerifyError) {
+        let mut failure = self.failure.lock().expect(panic_msg::MUTEX_LOCK_FAILED);
+        if failure.as_ref().map_or(true, |(n, _)| frame_number < *n) {
+            *failure = Some((frame_number, err));
+        }
+    }
+
+    /// Returns true if a worker has reported a failure.
+    pub fn has_failed(&self) -> bool {
+        self.failure
+            .lock()
+            .expect(panic_msg::MUTEX_LOCK_FAILED)
+            .is_some()
+    }
+
+    /// Takes the reported failure (if any).
+    pub fn take_failure(&self) -> Option<VerifyError> {
+        self.failure
+            .lock()
+            .expect(panic_msg::MUTEX_LOCK_FAILED)
+            .take()
+            .map(|(_, e)| e)
     }
 
     /// Gets the id for `FrameBuf` to be encoded first.
@@ -327,17 +358,25 @@ fn feed_fixed_block_size<T: Source, C: Fill>(
     let mut src = src;
     let mut frame_count = 0usize;
     let mut worker_starvation_count = 0usize;
+    let mut read_result = Ok(());
 
     'feed: loop {
         let bufid = parbuf.recv_refill_request();
+        if parbuf.has_failed() {
+            break 'feed;
+        }
         {
             let mut numbuf = parbuf.buffers[bufid]
                 .lock()
                 .expect(panic_msg::MUTEX_LOCK_FAILED);
             let mut framebuf_and_ctx = (&mut numbuf.framebuf, &mut context);
-            let read_samples = src.read_samples(block_size, &mut framebuf_and_ctx)?;
-            if read_samples == 0 {
-                break 'feed;
+            match src.read_samples(block_size, &mut framebuf_and_ctx) {
+                Ok(0) => break 'feed,
+                Ok(_) => {}
+                Err(e) => {
+                    read_result = Err(e);
+                    break 'feed;
+                }
             }
             numbuf.frame_number = Some(frame_count);
         }
@@ -346,7 +385,9 @@ fn feed_fixed_block_size<T: Source, C: Fill>(
             worker_starvation_count += 1;
         }
     }
+    // workers must be stopped on every exit path.
     parbuf.request_stop(workers);
+    read_result?;
     Ok((
         FeedStats {
             frame_count,
@@ -432,7 +473,16 @@ pub fn encode_with_fixed_block_size<T: Source>(
                     };
                     encode_result.map_or_else(
                         |e| {
-                            unreachable!("{}, err={:?}", panic_msg::ERROR_NOT_EXPECTED, e);
+                            // release the buffer first so that the feeder is never left
+                            // waiting for it, then hand the error to the main thread.
+                            parbuf.enqueue_refill(bufid);
+                            let e = match e {
+                                EncodeError::Config(e) => e,
+                                EncodeError::Source(e) => {
+                                    VerifyError::new("input.framebuf", &e.to_string())
+                                }
+                            };
+                            parbuf.report_failure(frame_number, e);
                         },
                         |mut frame| {
                             parbuf.enqueue_refill(bufid);
@@ -448,11 +498,21 @@ pub fn encode_with_fixed_block_size<T: Source>(
         .collect();
 
     let src_len_hint = src.len_hint();
-    let context = ParContext::new(Context::new(src.bits_per_sample(), src.channels()));
-    let (feed_stats, context) =
-        feed_fixed_block_size(src, block_size, worker_count, &parbuf, context)?;
+    let mut context = ParContext::new(Context::new(src.bits_per_sample(), src.channels()));
+    let feed_result =
+        feed_fixed_block_size(src, block_size, worker_count, &parbuf, &mut context)
+            .map(|(stats, _)| stats);
     let remaining_md5_blocks = context.request_stop();
     let context = context.finalize();
+    // All threads are stopped and joined before any error is returned.
+    for h in join_handles {
+        h.join().expect(panic_msg::THREAD_JOIN_FAILED);
+    }
+    // A frame that precedes a failed read fails first in stream order.
+    if let Some(e) = parbuf.take_failure() {
+        return Err(e.into());
+    }
+    let feed_stats = feed_result?;
 
     info!(
         target: "flacenc::par_run_stat::jsonl",
@@ -466,10 +526,6 @@ pub fn encode_with_fixed_block_size<T: Source>(
     stream
         .stream_info_mut()
         .set_md5_digest(&context.md5_digest());
-
-    for h in join_handles {
-        h.join().expect(panic_msg::THREAD_JOIN_FAILED);
-    }
 
     destruct_arc(parsink).finalize(|f: Frame| stream.add_frame(f));
 
